@@ -44,7 +44,7 @@ def shards(tier):
 
 def required_counters(tier):
     d = {f"pair.{c}.{e}": 1 for c in CONSTRUCTS if c != "nonbinding" for e in EXITS}
-    d.update({"programs": 1000, "observations": 10000, "depth>=3": 200, "argcheck.callee": 100, "argcheck.caller_after": 100, "argcheck.no_arg_in_frame": 100, "toplevel_checks": 200, "pair.nonbinding.TypeError": 50, "programs.optimized_interpreter": 20, "calls_made_by_exec_inside_an_open_call": 100})
+    d.update({"programs": 1000, "observations": 10000, "depth>=3": 200, "argcheck.callee": 100, "argcheck.caller_after": 100, "argcheck.no_arg_in_frame": 100, "toplevel_checks": 200, "pair.nonbinding.TypeError": 50, "programs.optimized_interpreter": 20, "calls_made_by_exec_inside_an_open_call": 100, "decorated_inside_a_live_scope": 200})
     return d
 
 
@@ -52,7 +52,7 @@ PRELUDE = '''
 import contextvars, dataclasses, functools, typing
 import numpy as np
 import jaxtyping
-from jaxtyping import jaxtyped, Shaped, AnnotationError
+from jaxtyping import jaxtyped, Shaped, AnnotationError, PyTree
 LOG = []
 CTX = {}
 class KI(KeyboardInterrupt): pass
@@ -152,6 +152,19 @@ class Gen:
             self.expected.append((i, "chkarg", True, self.tr()))
             self.counts["argcheck." + where] = self.counts.get("argcheck." + where, 0) + 1
 
+    def node_decorate_only(self, ind):
+        """a function is DEFINED and decorated here (with annotations nobody has seen before, incl. structured
+        PyTrees) and never called: typecheckers probe such annotations while decorating - nothing gets bound"""
+        i = self.new_id()
+        tc = self.rng.choice(("beartype_tc", "typeguard_tc"))
+        self.emit(ind, f"@jaxtyped(typechecker={tc})")
+        self.emit(ind, f'def unused_{i}(t: PyTree[Shaped[np.ndarray, "zz{i}"], "TT{i}"], u: typing.Optional[PyTree[int, "UU{i}"]] = None, v: Shaped[np.ndarray, "vv{i}"] = None) -> PyTree[Shaped[np.ndarray, "zz{i}"], "TT{i}"]:')
+        self.emit(ind + 1, "return t")
+        j = self.new_id()
+        self.emit(ind, f"obs({j})")
+        self.expected.append((j, "obs", self.tr()))
+        self.counts["decorated_inside_a_live_scope"] = self.counts.get("decorated_inside_a_live_scope", 0) + (1 if self.stack else 0)
+
     # ---- bodies
     def body(self, ind, depth, has_n):
         """emit 1-3 nodes; returns the name of an exception propagating out, or None"""
@@ -163,6 +176,8 @@ class Gen:
             r = self.rng.random()
             if r < 0.3:
                 self.node_chk(ind)
+            elif r < 0.34:
+                self.node_decorate_only(ind)
             elif r < 0.4:
                 self.node_obs(ind)
             elif r < 0.5:
